@@ -8,7 +8,7 @@
 set -u
 id="$1"; wt="${2:-/tmp/wt/$id}"; out="${3:-/tmp/seedout/$id}"
 export PATH=/opt/veriftools/go1.27.0/bin:$PATH GOFLAGS=-mod=mod GOPROXY=off GOSUMDB=off GOTOOLCHAIN=local GOWORK=off
-sv=/tmp/sv/$id
+sv=/tmp/sv/$(basename "$(dirname "$out")")-$id
 rm -rf "$sv"; git -C /repo worktree prune
 git -C /repo worktree add -q --detach "$sv" HEAD || exit 2
 res() { printf '%s\n' "$1" >> "$out/verify.log"; }
@@ -40,7 +40,7 @@ checks=""
 exec 9>/tmp/seedout/.repo.lock; flock 9
 if git -C /repo apply --check "$patch" 2>/dev/null && git -C /repo diff --quiet; then
   git -C /repo apply "$patch"
-  PVCHECK_OUT=/tmp/seedout/$id/ev /verif/check all quick > "$out/checks.log" 2>&1
+  PVCHECK_OUT=$out/ev /verif/check all quick > "$out/checks.log" 2>&1
   git -C /repo checkout -- .
   checks=$(grep -o '^VIOLATION property=C[0-9]*' "$out/checks.log" | sort -u | sed 's/VIOLATION property=//' | tr '\n' ' ')
 else
